@@ -486,8 +486,12 @@ class IndentationFeatures(object):
                 grad = np.gradient(y)
                 gz = np.abs(np.sum(grad[grad > 0]))
                 lz = np.abs(np.sum(grad[grad < 0]))
-                value = np.sum(indidx) * lz / gz
-                value = np.log(1 + value) / 10
+                if gz:
+                    value = np.sum(indidx) * lz / gz
+                    value = np.log(1 + value) / 10
+                else:
+                    # The force never increases (division by zero).
+                    value = np.nan
             else:
                 value = np.nan
         else:
